@@ -22,7 +22,13 @@
    "identified but not activated" sessions, which the statement does not mention).
 
    Deviation constants (all FALSE = the design as intended = the code as found):
-   Appendix-B style mutants used as negative controls of the contract clauses.  *)
+   Appendix-B style mutants used as negative controls of the contract clauses.
+
+   S16: RecoverStep re-enters the default session even when the user listed it in
+   the skip option (the code does).  That breaks only the LITERAL reading of the
+   skip sentence (G3_Literal, witness config MC_SessionScan_S16literal.cfg); the
+   contract exempts the default session, see SessionScanContract.  There is hence
+   no Dev_S16_* constant: nothing of the contract is weakened for it.          *)
 EXTENDS SessionScanContract
 
 CONSTANTS
